@@ -27,6 +27,12 @@ type Step struct {
 
 var ErrInjected = errors.New("injected read error")
 
+// ErrWrappedEOF is a real read error that merely wraps io.EOF.
+var ErrWrappedEOF = fmt.Errorf("connection lost: %w", io.EOF)
+
+// ErrClose is returned by Close when asked to.
+var ErrClose = errors.New("injected close error")
+
 // Script is a bcl.FileInput whose behaviour is a list of steps.
 // After the steps it hands out the remaining data in full reads, then io.EOF.
 type Script struct {
@@ -47,6 +53,7 @@ type Script struct {
 	ReadsAfterClose atomic.Int64
 	InRead          atomic.Bool
 	CloseDelay      int
+	CloseErr        error // returned by Close
 	// MarkOffset: ReadsAfterMark counts data-returning reads that started
 	// after the byte at MarkOffset had been delivered.
 	MarkOffset     int
@@ -130,7 +137,7 @@ func (s *Script) Read(p []byte) (int, error) {
 func (s *Script) Close() error {
 	delay(s.CloseDelay)
 	s.Closes.Add(1)
-	return nil
+	return s.CloseErr
 }
 
 // Delivered is the concatenation of all bytes handed out so far.
